@@ -119,16 +119,19 @@ func (x *c03exec) wasOK(d *c03task, from int64) bool {
 }
 
 func (x *c03exec) setState(ct *c03task, s exec.TaskState, err error) {
-	// record before applying: the change is visible to the evaluator no earlier than its record
+	// Record and apply under the monitor's lock: a hand-off (Run takes the same lock) is then
+	// judged against a timeline that agrees with what the evaluator could have read. Recording
+	// first and applying after the unlock let a preempted goroutine leave the real state behind
+	// its record for arbitrarily long - the evaluator then read OK where the timeline said LOST.
 	x.mu.Lock()
 	ct.timeline = append(ct.timeline, c03ev{x.tick(), s})
 	x.logf("%s=%s", ct.name, s)
-	x.mu.Unlock()
 	if s == exec.TaskErr {
 		ct.t.Error(err)
 	} else {
 		ct.t.Set(s)
 	}
+	x.mu.Unlock()
 }
 
 // Run is the hand-off from the evaluator.
